@@ -653,7 +653,51 @@ def device_call_kernels(ctx, S):
     device_call_history(ctx, S)
 
 
+ARGLESS_CALL_SRC = """
+@tweezer
+def kd():
+    z = spec.get_static_trap(zone_id="traps")
+    s = z[0:2, 1]
+    action.set_loc(s)
+    action.turn_on([0, 1], [0])
+    action.move(grid.shift(s, spec.get_float_constant(constant_id="pitch"), 0.5))
+
+@move{DEC}
+def root(t: int):
+    # device calls WITHOUT arguments, on a device function whose tones are only known at run time
+    f = schedule.device_fn(kd, [t, 1], [0])
+    f()
+    schedule.reverse(f)()
+    with schedule.parallel():
+        f()
+        schedule.reverse(f)()
+    f()
+"""
+
+
+# the device functions, forward and reversed, are already CONSTANTS of a helper subroutine compiled on its own before the root is
+SUBROUTINE_CALL_SRC = DEVICE_CALL_SRC.split("@move{DEC}")[0] + """
+@move
+def helper(x: float):
+    f = schedule.device_fn(kd, [0, 1], [0])
+    r = schedule.reverse(f)
+    r(x, 2.0)
+    f(1.0, x)
+    schedule.reverse(r)(q=x, p=x)
+
+@move{DEC}
+def root(x: float):
+    helper(x)
+    helper(0.5)
+"""
+
+
 def device_call_history(ctx, S):
+    for src_t, args in ((DEVICE_CALL_SRC, (1.5,)), (ARGLESS_CALL_SRC, (0,)), (SUBROUTINE_CALL_SRC, (1.5,))):
+        _device_call_history(ctx, S, src_t, args)
+
+
+def _device_call_history(ctx, S, SRC_T, ARGS):
     """ONE unspecialised kernel object that plays device functions, executed under spec S, then under another spec, then under S again, and
     finally compiled with the other spec: every execution plays what the kernel's source means under the spec of THAT execution (the
     expectation is the source evaluated natively), so executing a kernel under a spec leaves nothing of that spec behind on it"""
@@ -666,28 +710,28 @@ def device_call_history(ctx, S):
     lay2 = Layout(static_traps={**L.static_traps, "traps": Grid.from_positions([100.0, 103.0, 107.0, 112.0], [50.0, 52.0, 55.0])}, fillable=set(L.fillable),
                   has_cz=set(L.has_cz), has_local=set(L.has_local), special_grid=dict(L.special_grid))
     S2 = ArchSpec(layout=lay2, float_constants={**S.float_constants, "pitch": 0.75}, int_constants=dict(S.int_constants))
-    src = DEVICE_CALL_SRC.replace("{DEC}", "")
+    src = SRC_T.replace("{DEC}", "")
     ns = kernels.define(src, S=S)
     root = ns["root"]
 
     def native(X):
-        r = move_native.run_native(src, (1.5,), X, kernel_ns={"kd": ns["kd"]}, main="root")
+        r = move_native.run_native(src, ARGS, X, kernel_ns={"kd": ns["kd"]}, main="root")
         return events.events_text(r[1], tc.PosTable()) if r[0] == "ok" else None
     want = {"S": native(S), "S2": native(S2)}
-    if want["S"] is None or want["S2"] is None or want["S"] == want["S2"] or len(want["S"]) != 5:
+    if want["S"] is None or want["S2"] is None or want["S"] == want["S2"] or len(want["S"]) < 4:
         ctx.obligation("the device-call kernel has native references that differ between the two specs", False, str(want)[:300])
         return
     steps = [("S", "run"), ("S2", "run"), ("S", "run"), ("S2", "compiled"), ("S", "compiled"), ("S2", "run")]
     for k, (name, how) in enumerate(steps):
         X = {"S": S, "S2": S2}[name]
         ctx.evaluations += 1
-        rep = {"device_call_history": True, "step": k, "steps": [list(t) for t in steps]}
+        rep = {"device_call_history": True, "argless": SRC_T is ARGLESS_CALL_SRC, "step": k, "steps": [list(t) for t in steps]}
         try:
             if how == "run":
-                st, evs, extra = events.run_events(root, (1.5,), X)
+                st, evs, extra = events.run_events(root, ARGS, X)
             else:
-                m = kernels.define(DEVICE_CALL_SRC.replace("{DEC}", "(arch_spec=S)"), S=X)["root"]
-                st, evs, extra = events.run_events(m, (1.5,), X, plain=True)
+                m = kernels.define(SRC_T.replace("{DEC}", "(arch_spec=S)"), S=X)["root"]
+                st, evs, extra = events.run_events(m, ARGS, X, plain=True)
         except Exception as e:
             st, evs, extra = "err", [], f"{type(e).__name__}: {e}"
         got = events.events_text(evs, tc.PosTable()) if st == "ok" else ["ERR " + str(extra)[:100]]
